@@ -1,6 +1,8 @@
 mod core;
+mod lit;
 mod mv;
 mod nums;
+mod refsem;
 mod props;
 mod subj;
 
